@@ -119,6 +119,12 @@ def _det_cases():
     # products of Haar-random one-qubit unitaries, layers of rx/ry/rz rotations, with a global phase; the local factors K1, K2 are all there is
     for i in range(4):
         yield ("kak", {"gate": "weyl", "params": [0, 0, 0], "seeds": [9100 + 4 * i + j for j in range(4)], "always_oracle": True})
+    # faces and edges of the Weyl chamber with a NEGATIVE third coordinate, whatever the seed: c = -b != 0 (sqrt(SWAP) and its powers: a = b = -c),
+    # c = -b with another a, and b = c mirrored; with and without local conjugation (seeds 0 = identity-like fixed locals)
+    import math as _m
+    for i, abc in enumerate(([_m.pi / 8, _m.pi / 8, -_m.pi / 8], [_m.pi / 12, _m.pi / 12, -_m.pi / 12], [0.6, 0.25, -0.25], [0.7, 0.3, -0.3],
+                              [0.5, 0.2, -0.1], [_m.pi / 4, _m.pi / 4, -_m.pi / 4], [0.6, 0.25, 0.25])):
+        yield ("kak", {"gate": "weyl", "params": abc, "seeds": [9300 + 4 * i + j for j in range(4)], "always_oracle": True})
     for ps in ([61, 62], [[0.7, 1.1, 0.4], [-0.3, 0.9, 1.6]], [63, [1.2, 0.0, -0.8], 0.9], [[0.0, 0.0, 0.6], [0.0, 1.3, 0.0], -0.4]):
         yield ("kak", {"gate": "unitary_kron", "params": ps, "always_oracle": True})
     for i, (g_, ps) in enumerate(BOX_INNER):
@@ -188,7 +194,11 @@ def cases(rng, tier):
     # pre/post rotations); a basis requested afterwards must be untouched by that
     edits = [("move", [], "move", []), ("cx", [], "cz", []), ("rzz", [0.7], "rzz", [0.7]), ("swap", [], "iswap", []), ("cs", [], "csdg", []),
              ("crx", [1.1], "cry", [1.1]), ("move", [], "cx", []), ("ecr", [], "ecr", [])]
-    for g1, p1, g2, p2 in (rng.sample(edits, 4) if tier == "quick" else edits * 3):
+    # (every pair, whatever the seed; both sides and both ends of the lists are covered across the pairs, and for the Move pair explicitly)
+    for k, (g1, p1, g2, p2) in enumerate(edits + [("move", [], "move", [])] * 3):
+        yield ("gate", {"gate": g2, "params": p2, "always_oracle": True,
+                        "edit_first": {"gate": g1, "params": p1, "side": k % 2, "op": ["s", "h", "x"][k % 3], "front": (k // 2) % 2 == 1}})
+    for g1, p1, g2, p2 in (edits * 2 if tier != "quick" else []):
         yield ("gate", {"gate": g2, "params": p2, "edit_first": {"gate": g1, "params": p1, "side": rng.randrange(2),
                                                                    "op": rng.choice(["s", "h", "x"]), "front": rng.random() < 0.5}})
     # gates that went through serialisation (equal name strings are then not the interned literals)
